@@ -143,7 +143,11 @@ func main() {
 	case "check":
 		rc = cmdCheck(os.Args[2:])
 	case "claim":
-		rc = cmdClaim(os.Args[2:])
+		if len(os.Args) > 2 && os.Args[2] == "C09" {
+			rc = cmdSweepClaim()
+		} else {
+			rc = cmdClaim(os.Args[2:])
+		}
 	default:
 		fmt.Fprintln(os.Stderr, "unknown command")
 		rc = 2
